@@ -28,7 +28,12 @@ def get_build(key):
         if len(key) > 2 and key[2]:
             text = re.sub(r"(?m)^language:.*\n", "", text)
             text = "language: %s\n" % key[2] + text
-        b = cgen.build(text, {hdr: lib_text(hdr)}, extra_includes=[os.path.join(os.path.dirname(LIBDIR), "luastub")])
+        extra = [os.path.join(os.path.dirname(LIBDIR), "luastub")]
+        if "F_CFI: true" in text:
+            # ISO_Fortran_binding.h comes with gfortran, not with clang
+            import glob
+            extra += sorted(glob.glob("/usr/lib/gcc/*/*/include"))[-1:]
+        b = cgen.build(text, {hdr: lib_text(hdr)}, extra_includes=extra)
         if b.errors:
             raise RuntimeError("generated code does not compile: %s" % b.errors[0][:800])
         _BUILDS[key] = b
